@@ -241,7 +241,10 @@ PreludeOps ==
                               ann("T3", dir(<<TB("Ann", ById("sideA"), NoRef, NoOffset), TB("Ann", ById("sideB"), NoRef, NoOffset), TB("Ann", ById("sideC"), NoRef, NoOffset)>>), <<>>),
                               ann("S1", dir(<<t("r1", 1, 5), t("r3", 0, 4)>>), <<>>),
                               ann("w1", t("r1", 1, 2), d3),
-                              ann("w2", dir(<<t("r1", 2, 4), t("r1", 6, 7)>>), d3)>>
+                              ann("w2", dir(<<t("r1", 2, 4), t("r1", 6, 7)>>), d3),
+                              \* sources with one fragment inside the sides and one outside / sticking out (must be refused)
+                              ann("w3", dir(<<t("r1", 1, 3), t("r1", 5, 6)>>), <<>>),
+                              ann("w4", dir(<<t("r1", 1, 3), t("r1", 4, 6)>>), <<>>)>>
          \* 13: three overlapping annotations with consecutive handles on a five-character text (material for complex
          \*     selectors over annotations with relative offsets, which the library range-compresses)
          [] Prelude = 13 -> <<[ev |-> "AddResource", a |-> [id |-> "r1", text |-> <<11, 12, 13, 14, 21>>]], addset,
